@@ -85,7 +85,7 @@ def q(tag): return f'{{{SVGNS}}}{tag}'
 CONTAINERS_FOR_G = ('svg', 'g', 'defs')
 
 def noise_node(rng, kind):
-    if kind == 'comment': return etree.Comment(' note ')
+    if kind == 'comment': return etree.Comment(rng.choice([' note ', ' note ', ' saved as <svg> by a tool ', ' <svg xmlns:foo="urn:x"> was here ', ' xlink:href="#nothing" ']))
     if kind == 'pi': return etree.ProcessingInstruction('xpacket', 'begin="x"')
     if kind in ('title', 'desc', 'metadata'):
         e = etree.Element(q(kind)); e.text = 'words'
@@ -150,7 +150,7 @@ def insert_noise(doc, rng, kinds):
                 log.append(f'whitespace inside {etree.QName(host).localname}')
     out = etree.tostring(root).decode()
     if 'decl' in kinds: out = '<?xml version="1.0" encoding="UTF-8" standalone="no"?>' + rng.choice(['\n', '', ' ']) + out; log.append('XML declaration')     # also with nothing between it and the root (one-line files)
-    if 'pi_top' in kinds: out = out.replace('<svg', '<?top pi?><!-- before root --><svg', 1) + '<!-- after root -->'; log.append('PI/comment outside the root')
+    if 'pi_top' in kinds: out = out.replace('<svg', rng.choice(['<?top pi?><!-- before root --><svg', '<!-- Saved as <svg> by DrawTool --><?top pi?><svg', '<!-- <svg width="1"> --><svg']), 1) + '<!-- after root -->'; log.append('PI/comment outside the root')
     return out, log
 
 # ---------------------------------------------------------------- comparison up to gradient ids, defs order, last digit
